@@ -93,3 +93,29 @@ pub fn k_smbios_new() {
     kani::cover!(len == 9);
     kani::cover!(len == 0);
 }
+
+// ---- C16: cloning a DST tag kind that has fixed fields after the header (BASE_SIZE 16 > header 8):
+// the clone declares the same size and has the same bytes up to that size, for every content
+// length 0..=9 (every padding residue).
+#[kani::proof]
+#[kani::unwind(28)]
+pub fn k_smbios_clone_dyn() {
+    let raw: [u8; 9] = kani::any();
+    let len: usize = kani::any();
+    kani::assume(len <= 9);
+    let tag = SmbiosTag::new(kani::any(), kani::any(), &raw[..len]);
+    let clone = multiboot2_common::clone_dyn::<SmbiosTag>(&tag);
+    assert!(clone.header.size == tag.header.size);
+    assert!(clone.header.size as usize == 16 + len);
+    assert!(clone.major() == tag.major() && clone.minor() == tag.minor());
+    assert!(clone.tables().len() == len);
+    let (a, b) = (tag.as_bytes(), clone.as_bytes());
+    let (ia, ib): (&[u8], &[u8]) = (*a, *b);
+    assert!(ia.len() == ib.len());
+    let mut i = 0;
+    while i < 16 + len {
+        assert!(ia[i] == ib[i]);
+        i += 1;
+    }
+    kani::cover!(len == 5);
+}
